@@ -171,20 +171,43 @@ const Sentinel = "~sentinel"
 // Sentinel2 is the tag of the second closing publish (see Exec).
 const Sentinel2 = "~sentinel2"
 
-type dialer struct {
-	r      *Run
-	fail   map[int]bool
-	mu     sync.Mutex
-	n      int
-	onDial func(n int, cli *mqtt.BaseClient, conn *memnet.Conn)
+// Dialer is the harness mqtt.Dialer: it consults the dial plan, records events and hands out
+// BaseClients on fresh in-memory connections.
+type Dialer struct {
+	r       *Run
+	fail    map[int]bool
+	mu      sync.Mutex
+	failAll bool
+	n       int
+	onDial  func(n int, cli *mqtt.BaseClient, conn *memnet.Conn)
+	// Before is called at the start of every DialContext (after dial.start was recorded).
+	Before func(n int)
 }
 
-func (d *dialer) DialContext(ctx context.Context) (*mqtt.BaseClient, error) {
+// NewDialer creates a Dialer for a hand-written scenario.
+func NewDialer(tr *memnet.Trace, br *Broker, sc *Scenario, failing []int) (*Dialer, *Run) {
+	r := &Run{Sc: sc, Tr: tr, Br: br}
+	d := &Dialer{r: r, fail: map[int]bool{}}
+	for _, n := range failing {
+		d.fail[n] = true
+	}
+	return d, r
+}
+
+// FailAll makes every dial fail while on is true.
+func (d *Dialer) FailAll(on bool) {
+	d.mu.Lock()
+	d.failAll = on
+	d.mu.Unlock()
+}
+
+func (d *Dialer) DialContext(ctx context.Context) (*mqtt.BaseClient, error) {
 	r := d.r
 	tr := r.Tr
 	d.mu.Lock()
 	d.n++
 	n := d.n
+	failAll := d.failAll
 	d.mu.Unlock()
 	tr.Mu.Lock()
 	open := 0
@@ -197,7 +220,10 @@ func (d *dialer) DialContext(ctx context.Context) (*mqtt.BaseClient, error) {
 	down := r.Br.Down
 	r.Dials++
 	tr.Mu.Unlock()
-	if d.fail[n] || down {
+	if d.Before != nil {
+		d.Before(n)
+	}
+	if d.fail[n] || down || failAll {
 		tr.Mu.Lock()
 		r.DialFails++
 		tr.AddLocked(memnet.Event{Kind: memnet.KDialEnd, N: n, Err: "dial refused"})
@@ -229,7 +255,7 @@ func Exec(sc *Scenario) *Run {
 	br := NewBroker(tr, sc.Cfg, sc.Faults)
 	br.OnConnect = sc.OnConnect
 	r := &Run{Sc: sc, Tr: tr, Br: br}
-	d := &dialer{r: r, fail: map[int]bool{}}
+	d := &Dialer{r: r, fail: map[int]bool{}}
 	for _, n := range sc.DialFail {
 		d.fail[n] = true
 	}
@@ -318,6 +344,23 @@ func Exec(sc *Scenario) *Run {
 		case "inject":
 			// wait (bounded) for an accepted connection, then push
 			tr.WaitFor(Watchdog, func() bool { return br.PushLocked(*st.In) })
+		case "garbage":
+			// the broker sends a malformed packet (protocol error seen by the client)
+			tr.Mu.Lock()
+			if br.Cur != nil {
+				br.Cur.SendLocked([]byte{0xF0, 0x00}, "garbage")
+			}
+			tr.Mu.Unlock()
+		case "silentping":
+			tr.Mu.Lock()
+			br.SilentPingOnly = true
+			tr.AddLocked(memnet.Event{Kind: memnet.KNote, S: "broker stops answering PINGREQ"})
+			tr.Mu.Unlock()
+		case "pingok":
+			tr.Mu.Lock()
+			br.SilentPingOnly = false
+			tr.AddLocked(memnet.Event{Kind: memnet.KNote, S: "broker answers PINGREQ again"})
+			tr.Mu.Unlock()
 		case "sleep":
 			time.Sleep(time.Duration(st.Ms) * time.Millisecond)
 		case "wait":
@@ -442,6 +485,7 @@ func Exec(sc *Scenario) *Run {
 	// stabilise: the broker is reachable and faultless from now on
 	tr.Mu.Lock()
 	br.Down = false
+	br.SilentPingOnly = false
 	br.ClearFaults()
 	tr.AddLocked(memnet.Event{Kind: memnet.KNote, S: "stabilised: no further faults"})
 	tr.Mu.Unlock()
